@@ -284,3 +284,52 @@ def constructor_fault(g, graph, ctor, name=G.vname):
     if set(graph.directed.nodes()) != set(graph.undirected.nodes()):
         return f"constructor {ctor}: directed and undirected parts hold different node sets"
     return None
+
+
+# --------------------------------------------------------------------------------------------- canonicalize(expr, ordering)
+
+# canonicalize declares `Sequence[str | Variable] | None`; the consumer (dsl.ensure_ordering, OrderingHint) takes any
+# `Iterable[str | Variable]` and re-sorts it, so the ordering only matters as a set of names
+ORDERING_CONTAINERS = SEQUENCES + SEQUENCES + ("set", "frozenset", "dict_keys") + ONE_SHOT
+ORDERING_CONTAINERS_ORDERED = SEQUENCES + SEQUENCES + ("dict_keys",) + ONE_SHOT     # forms that keep the caller's order
+ORDERING_ELEMS = ("variable", "str", "mixed")
+NO_ORDERING = ("omitted", "none", "none_keyword")
+
+
+def canonicalize_slots(ordering, suffix="", ordered_only=False):
+    """`ordered_only`: where two calls are compared 'under the same ordering', only forms that hand over the same
+    SEQUENCE are the same ordering (that y0 re-sorts the ordering today is an implementation detail)"""
+    if ordering is None:
+        return {"ordering" + suffix: NO_ORDERING}
+    return {"ordering" + suffix: ORDERING_CONTAINERS_ORDERED if ordered_only else ORDERING_CONTAINERS,
+            "ordering_elems" + suffix: ORDERING_ELEMS,
+            "call" + suffix: ("positional", "keyword")}
+
+
+def ordering_arg(variables, cform, eform):
+    """the ordering (a list of y0 Variables) with plain variables written as `str` names where `eform` says so"""
+    from y0.dsl import Variable
+
+    out = []
+    for k, v in enumerate(variables):
+        plain = type(v) is Variable and v.star is None
+        if plain and (eform == "str" or (eform == "mixed" and k % 2 == 0)):
+            out.append(v.name)
+        else:
+            out.append(v)
+    return container(out, cform)
+
+
+def call_canonicalize(canonicalize, e, variables, fm, suffix=""):
+    """canonicalize(e, ordering) in the recorded form; `variables` is None or the list of Variables of the ordering"""
+    o = fm["ordering" + suffix]
+    if variables is None:
+        if o == "none":
+            return canonicalize(e, None)
+        if o == "none_keyword":
+            return canonicalize(expression=e, ordering=None)
+        return canonicalize(e)
+    arg = ordering_arg(variables, o, fm["ordering_elems" + suffix])
+    if fm["call" + suffix] == "keyword":
+        return canonicalize(expression=e, ordering=arg)
+    return canonicalize(e, arg)
